@@ -731,12 +731,15 @@ class WalletTransaction(Transaction):
             if inp.sequence is not None:
                 sequence = inp.sequence
             inp_keys = []
+            sigs_required = None
             if inp.key_id:
                 key = hdwallet.key(inp.key_id)
                 if key.key_type == 'multisig':
                     db_key = sess.query(DbKey).filter_by(id=key.key_id).scalar()
                     for ck in db_key.multisig_children:
                         inp_keys.append(ck.child_key.public.hex())
+                    # The threshold is the wallet's: an input without signatures does not carry it
+                    sigs_required = hdwallet.multisig_n_required
                 else:
                     inp_keys = key.key()
 
@@ -744,7 +747,7 @@ class WalletTransaction(Transaction):
                 prev_txid=inp.prev_txid, output_n=inp.output_n, keys=inp_keys, unlocking_script=inp.script,
                 script_type=inp.script_type, sequence=sequence, index_n=inp.index_n, value=inp.value,
                 double_spend=inp.double_spend, witness_type=inp.witness_type, network=network, address=inp.address,
-                witnesses=inp.witnesses))
+                witnesses=inp.witnesses, sigs_required=sigs_required))
 
         outputs = []
         for out in db_tx.outputs:
